@@ -48,7 +48,13 @@ def run_spec(spec, rec):
             rec.violation('callbacks_fired_more_than_once', a, job_=rj)
         if rj['stable'] is False:
             rec.violation('outcome_changed_after_observable', a, job_=rj)
-        if oc[0] == 'unresolved' or (oc[0] == 'items' and oc[1][-1:] == [['stuck']]):
+        if k not in ('imap', 'imap_u', 'map') and p['pool_hard'] and oc[0] == 'exc' \
+                and oc[1] == 'TimeLimitExceeded' and k != 'overlimit':
+            # legal: the result (or the loss) was beaten by the pool's hard limit
+            rec.count('real:hard_limit_won_the_race')
+            continue
+        if oc[0] == 'unresolved' or (oc[0] == 'items' and (
+                oc[1][-1:] == [['stuck']] or ['exc', 'TimeoutError'] in oc[1])):
             if k not in ('imap', 'imap_u'):
                 rec.violation('job_never_resolved', a, job_=rj, params=p)
             continue
